@@ -68,7 +68,7 @@ pub fn all() -> Vec<Prop> {
             level: "exploration",
             rule: "one evaluation = one simulated cluster execution (seed -> committee, fault mix, plan of director actions, schedule); non-trivial = at least one block committed by a correct node and (except in the fault-free population) at least one fault fired; distinct = distinct event-log fingerprint",
             batches: |t| {
-                let mut b = bft_batches(&[("faultfree", 24), ("swarm", 200), ("hidden", 160)], &[("faultfree", 200), ("swarm", 6000), ("hidden", 4000)], t);
+                let mut b = bft_batches(&[("faultfree", 24), ("swarm", 200), ("hidden", 160)], &[("faultfree", 200), ("swarm", 6000), ("hidden", 2000)], t);
                 b.push(Batch { engine: "node", mode: "cluster", runs: if t == "thorough" { 600 } else { 16 } });
                 b
             },
